@@ -21,7 +21,9 @@ func main() {
 	palsd.RegionEvery = *regions
 	w := vt.Create(*out)
 	rng := vt.Rand(*seed, "pals")
-	if os.Args[1] == "selfsweep" {
+	if os.Args[1] == "packs" {
+		palsd.Packs(w, rng, *n)
+	} else if os.Args[1] == "selfsweep" {
 		palsd.SelfSweep(w, rng, *n)
 	} else {
 		for i := 0; i < *n; i++ {
